@@ -1,3 +1,5 @@
 import PytaskProofs.AuditTool
 import PytaskProofs.Properties.C01
 import PytaskProofs.Properties.C19
+import PytaskProofs.Properties.C14
+import PytaskProofs.Properties.C15
